@@ -25,6 +25,7 @@ import (
 
 	warptypes "github.com/bcp-innovations/hyperlane-cosmos/x/warp/types"
 
+	adaptertypes "github.com/noble-assets/orbiter/v2/types/component/adapter"
 	actiontypes "github.com/noble-assets/orbiter/v2/types/controller/action"
 	fwdtypes "github.com/noble-assets/orbiter/v2/types/controller/forwarding"
 	"github.com/noble-assets/orbiter/v2/types/core"
@@ -152,6 +153,7 @@ func main() {
 	f.Nat["maxCounterpartyIDLength"] = core.MaxCounterpartyIDLength
 	f.Nat["maxTargetCounterparties"] = core.MaxTargetCounterparties
 	f.Nat["cctpNobleDomain"] = fwdtypes.CCTPNobleDomain
+	f.Nat["defaultMaxPassthroughPayloadSize"] = uint64(adaptertypes.DefaultGenesisState().Params.MaxPassthroughPayloadSize)
 	f.Nat["hypTokenIDLen"] = fwdtypes.HypTokenIDLen
 	f.Nat["hypRecipientLen"] = fwdtypes.HypRecipientLen
 	f.Nat["hypCustomHookLen"] = fwdtypes.HypCustomHookLen
